@@ -142,6 +142,21 @@ def gen_starttls(repo):
         raise TranslateError('lib/netio.c: handling of stale input not understood')
     if not re.search(r'if\s*\(ssl\)\s*\{\s*int\s+r\s*=\s*ssl_timeoutread\(ssl,', func_body(nc, 'readinput', 'lib/netio.c')):
         raise TranslateError('readinput: channel selection changed')
+    # lib/netio.c: does loop_long() read with the caller's `fatal`, or always with fatal = 1 (dieerror() under net_read(0))?
+    ll = func_body(nc, 'loop_long', 'lib/netio.c')
+    calls = re.findall(r'loop_long\(([^)]*)\)\s*;', nr)
+    if re.search(r'loop_long\(int\s+has_cr\s*,\s*const\s+int\s+fatal\)', ll) and \
+       re.search(r'linenlen\s*=\s*readinput\(lineinbuf,\s*sizeof\(lineinbuf\),\s*fatal\);', ll) and \
+       [c.replace(' ', '') for c in calls] == ['0,fatal', '1,fatal']:
+        out += _bool('ST_LOOPLONG_PASSES_FATAL', True)
+    elif re.search(r'loop_long\(int\s+has_cr\)', ll) and \
+         re.search(r'linenlen\s*=\s*readinput\(lineinbuf,\s*sizeof\(lineinbuf\),\s*1\);', ll) and \
+         [c.replace(' ', '') for c in calls] == ['0', '1']:
+        out += _bool('ST_LOOPLONG_PASSES_FATAL', False)
+    else:
+        raise TranslateError('loop_long: how it calls readinput() is not understood')
+    if not re.search(r'if\s*\(linenlen\s*==\s*\(size_t\)\s*-1\)\s*\{\s*linenlen\s*=\s*0;\s*return;\s*\}', ll):
+        raise TranslateError('loop_long: the failed-read path changed')
 
     # ---------------------------------------------------------------- conn_mx.c
     cm = strip_comments(read(repo, 'qremote/conn_mx.c'))
